@@ -123,6 +123,10 @@ def check(ctx, prop, modules, theorems, rule, explanation, assumptions, level):
         for cid, o in impl.items():
             kind = cid.split("#")[1][0]
             okm = okr = True
+            if o.startswith("FATAL:"):
+                if len([v for v in viol if "fatal" in v.get("detail", {})]) < 2:
+                    viol.append({"case": cid, "detail": {"fatal": core.fatal_text(o), "what": "the process died on this case (unrecoverable runtime error)"}, "spec": spec_of(gens, cid)})
+                continue
             if prop == "C02" and kind == "i":
                 m = model.get(cid)
                 if not m or not m[0].startswith("iface="):
